@@ -115,8 +115,41 @@ def bound_oracle(f, variant_idx, ordv, empty=None):
     def oracle(e, c):
         if e[0] == 'discr' and e[1][0] == 'param' and e[1][2] == 1:
             return variant_idx
+        def ordering_of(x):
+            # inp.cmp(v) / v.cmp(inp) / partial_cmp: the ordering of key vs bound in this case, as 'lt' / 'eq' / 'gt'
+            while x[0] == 'call' and isinstance(x[1], str) and x[1].rsplit('::', 1)[-1] in ('unwrap', 'expect') and x[2]:
+                x = x[2][0]
+            if x[0] == 'call' and isinstance(x[1], str) and x[1].rsplit('::', 1)[-1] in ('cmp', 'partial_cmp') and len(x[2]) == 2:
+                a_, b_ = x[2]
+                ai = any(y[0] == 'param' and y[2] == 2 for y in walk(a_))
+                bi = any(y[0] == 'param' and y[2] == 2 for y in walk(b_))
+                if ai and not bi:
+                    return ordv
+                if bi and not ai:
+                    return {'lt': 'gt', 'gt': 'lt', 'eq': 'eq'}[ordv]
+            return None
+
+        def variant_of(x):
+            if x[0] == 'agg' and x[1].startswith('std::cmp::Ordering::'):
+                return {'Less': 'lt', 'Equal': 'eq', 'Greater': 'gt'}.get(x[1].rsplit('::', 1)[-1])
+            if x[0] == 'agg' and x[1].endswith('Option::Some') and x[2]:
+                return variant_of(x[2][0][1])
+            return None
+        if e[0] == 'discr':
+            o = ordering_of(e[1])
+            if o is not None:
+                return {'lt': 255, 'eq': 0, 'gt': 1}[o]       # discriminant of Ordering as the switch sees it (Less = -1i8)
         if e[0] == 'call' and isinstance(e[1], str):
             m = e[1].rsplit('::', 1)[-1]
+            if m in ('eq', 'ne') and len(e[2]) == 2:
+                for x, y in (e[2], e[2][::-1]):
+                    o, v = ordering_of(x), variant_of(y)
+                    if o is not None and v is not None:
+                        return int((o == v) == (m == 'eq'))
+            if m in ('is_gt', 'is_ge', 'is_lt', 'is_le', 'is_eq', 'is_ne') and e[2]:
+                o = ordering_of(e[2][0])
+                if o is not None:
+                    return int({'is_gt': o == 'gt', 'is_ge': o != 'lt', 'is_lt': o == 'lt', 'is_le': o != 'gt', 'is_eq': o == 'eq', 'is_ne': o != 'eq'}[m])
             if m in ('gt', 'ge', 'lt', 'le', 'eq', 'ne') and len(e[2]) == 2:
                 a, b = e[2]
                 a_inp = any(x[0] == 'param' and x[2] == 2 for x in walk(a))
